@@ -611,8 +611,10 @@ class Graph:
 
     @property
     def has_interrupts(self) -> bool:
-        """True if any node is an interrupt node."""
-        return any(node.is_interrupt for node in self._nodes.values())
+        """True if any node is an interrupt node, at any nesting depth."""
+        from hypergraph.nodes.graph_node import GraphNode
+
+        return any(node.is_interrupt or (isinstance(node, GraphNode) and node.graph.has_interrupts) for node in self._nodes.values())
 
     @property
     def interrupt_nodes(self) -> list:
